@@ -52,8 +52,8 @@ Theorem C07_bfrange_array : forall m cid n v vs m', add_cid2unichr m cid v = UOk
 Proof. exact bfrange_array_step. Qed.
 
 (* ---- advances --------------------------------------------------------------------------------------------------------- *)
-(* horizontal: the last W entry (c [w...] or cfirst clast w) covering the CID, else DW *)
-Theorem C07_widths : forall es dw w2 dw2 cid,
+(* horizontal: the last W entry (c [w...] or cfirst clast w, CIDs within 0..65535) covering the CID, else DW *)
+Theorem C07_widths : forall es dw w2 dw2 cid, Forall entry_ok es ->
   cid_width (mkCID false (flat_map encode_entry es) dw w2 dw2) cid = match iso_w es cid with Some w => w | None => dw end.
 Proof. exact cid_width_iso. Qed.
 (* vertical *)
